@@ -109,6 +109,55 @@ def mon_mapping_asset(case, ev, prefix='asset'):
         case.check(prefix + '.no_nan', not np.isinf(df[~np.isnan(df)]).any(), **who, what='disp_factor inf')
 
 
+def derived_internal_steps(s):
+    """{internal variable -> time step} read off the asset's own rows, independently of what the mapping says about that variable: a row whose
+    dispatch variables all belong to ONE step ties the internal variables it contains to that step; a variable counts only if all such rows
+    agree (variables tied to several steps - start flags under a profile - are left out)."""
+    m = s.mapping
+    if s.A is None or m is None or 'type' not in m.columns:
+        return {}
+    n = len(s.c)
+    dsteps = {}; internal = set()
+    for idx, ty, t in zip(m.index, m['type'], m['time_step']):
+        if ty == 'd':
+            dsteps.setdefault(int(idx), set()).add(int(t))
+        elif ty == 'i':
+            internal.add(int(idx))
+    internal -= set(dsteps)
+    if not internal:
+        return {}
+    A = s.A.tocsr()
+    cand = {}
+    for r in range(A.shape[0]):
+        cols = A.indices[A.indptr[r]:A.indptr[r + 1]]
+        D = [int(c) for c in cols if int(c) in dsteps]; I_ = [int(c) for c in cols if int(c) in internal]
+        if not D or not I_:
+            continue
+        st = set()
+        for c in D:
+            st |= dsteps[c]
+        if len(st) == 1:
+            for c in I_:
+                cand.setdefault(c, set()).add(next(iter(st)))
+    return {c: next(iter(v)) for c, v in cand.items() if len(v) == 1}
+
+
+def mon_internal_steps(case, ev, clause='asset.internal_variable_step_matches_its_rows'):
+    s = ev.snap
+    if s is None or s.mapping is None or len(s.c) == 0 or ev.args.get('cls') not in ('Storage',):      # (plants tie a shutdown / start flag to the dispatch of neighbouring steps: no unique reading there)
+        return
+    der = derived_internal_steps(s)
+    if not der:
+        return
+    m = s.mapping
+    have = {}
+    for idx, t in zip(m.index, m['time_step']):
+        have.setdefault(int(idx), set()).add(int(t))
+    bad = [(c, sorted(have.get(c, [])), t) for c, t in der.items() if have.get(c) != {t}]
+    case.check(clause, not bad, asset=ev.args.get('name'), cls=ev.args.get('cls'), n_internal=len(der),
+               first_bad=[{'variable': c, 'mapping_steps': h, 'step_of_its_dispatch_rows': t} for c, h, t in bad[:3]])
+
+
 # -------------------------------------------------------------------------------------------------
 # C07 portfolio level (history based: the assets' own sub-problems recorded while the portfolio call ran)
 # -------------------------------------------------------------------------------------------------
